@@ -6,6 +6,7 @@ CONSTANTS
   MinLen = 1
   MaxPairs = 2
   KeepHist = TRUE
+  EmitFrom = 1
 INVARIANTS
   EmitBehaviours
 CHECK_DEADLOCK FALSE
